@@ -333,6 +333,20 @@ followed by `np.array(graph.get_adjacency(type=2).data)` -/
 def simplified (es : List (Nat × Nat)) : Adj := fun a b =>
   a != b && es.any fun e => (e.1 == a && e.2 == b) || (e.2 == a && e.1 == b)
 
+/-- which igraph call `Network.ErdosRenyi(n_nodes, link_probability, n_links)` makes -/
+inductive ERCall | byProbability | byLinkCount
+deriving DecidableEq, Repr
+
+/-- the argument dispatch of `Network.ErdosRenyi` (`network.py`): `link_probability is not None and
+n_links is None` → `Erdos_Renyi(n, p=…)`; `link_probability is None and n_links is not None` →
+`Erdos_Renyi(n, m=n_links)`; otherwise (both or neither) `ValueError` (`none`).  The returned matrix is
+`np.array(graph.get_adjacency(type=2).data)` = `fromEdges n_nodes (graph.get_edgelist())` for the simple
+graph igraph returns; `Network.WattsStrogatz` is the same read-out of `Watts_Strogatz(1, N, k, p)`. -/
+def erdosRenyiCall (hasProbability hasLinkCount : Bool) : Option ERCall :=
+  if hasProbability && !hasLinkCount then some .byProbability
+  else if !hasProbability && hasLinkCount then some .byLinkCount
+  else none
+
 /-- is there a pair of listed cross links the `while True` of `_randomlyRewireCrossLinks` accepts?
 (`false` = the kernel would draw forever: the call is outside "defined") -/
 def crossAdmissible (C : Adj) (links : List (Nat × Nat)) : Bool :=
